@@ -543,7 +543,9 @@ def forestEquiv (a b : List Tree) : Prop := a.map Tree.cstr = b.map Tree.cstr
 `printTree lvl t` prints a tree as `dfs_print` prints the node it came from (children in list order); `Tree.ok` are the
 trees whose printed text is read back unchanged: the title is one upper-case token that does not start with "END",
 the section parameters are tokens, the data lines are stripped, non-empty, without line breaks and do not start with
-'&'.  Every tree the reader builds is of this kind (checked on every run by the tie through op `cp2kspec`). -/
+'&'.  Every tree the reader builds is of this kind, unless a header is written `& END…` (white space after the '&'
+and a name starting with "end": the reader opens a section called END…) — checked on every run by the tie through
+op `cp2kspec`. -/
 
 mutual
 def printTree (lvl : Nat) : Tree → List Str
